@@ -89,17 +89,65 @@ Theorem C07_adam_constant_sign_ascent b1 b2 lr eps gs ss :
 Proof. exact (adam_constant_sign_ascent b1 b2 lr eps gs ss). Qed.
 Print Assumptions C07_adam_constant_sign_ascent.
 
-(* PARTIAL.  Full clause (DESIGN `multistart_best_successful`): if some run succeeded in-domain with a real value the
-   result is the first successful end point of maximal value, and the reported lists are the per-start outcomes;
-   otherwise the first start is returned.  Proved: whenever the loop returns, the result is an acceptable end point or
-   one of the starting points.  The first-maximum part is decided by the correspondence (exact comparison with
-   Model.Multistart) and by the searcher's restatement over the outcome table. *)
-Theorem C07_multistart_result_acceptable_partial acc run gen nm selected st :
+(* Multistart (DESIGN `multistart_best_successful`): "the multistart SciPy wrappers return an in-domain point whose value
+   is the best among their successful runs".  PROVED IN FULL for MultistartOptimizer.optimize (Model.Multistart), for every
+   acceptability predicate, inner optimiser, generator, num_multistarts and selected starts: whenever the loop returns,
+   the runs made are those of the first num_runs starts of all_starts (num_runs = len(selected_starts) if
+   num_multistarts = 0, else num_multistarts; at least one), and with rows = what the code records for these runs
+   (a failed / out-of-domain run has value NaN and success False; a run that raised keeps its start as end point)
+   (a) starting_points, ending_points, function_values (and the success list) are these rows, in order;
+   (b) if some run is recorded successful (so its end point is acceptable) with a real value, the result is the end
+       point of the FIRST such run of maximal value (strictly larger than all earlier, >= all later ones), the best value
+       is that value, and the result is acceptable;
+   (c) otherwise the best value stays -inf and the result is the first start -- except when the first run itself is
+       recorded successful with a NaN value: then the result is that run's (acceptable) end point.  In particular if no
+       run is recorded successful the result is the first start.
+   The exception in (c) is what the code does (see C07_multistart_first_start_fallback_refuted below). *)
+Theorem C07_multistart_best_successful acc run gen nm selected st :
+  ms_optimize acc run gen nm selected = Ok st ->
+  exists p1 ran' rest,
+    ms_all_starts gen nm selected = (p1 :: ran') ++ rest /\ length (p1 :: ran') = ms_num_runs nm selected /\
+    let rows := ms_rows acc run 0 (p1 :: ran') in
+    let row1 := ms_row_of acc run 0 p1 in
+    ms_starts st = p1 :: ran' /\ ms_ends st = map r_end rows /\ ms_vals st = map r_val rows /\ ms_succ st = map r_succ rows /\
+    ((exists r, In r rows /\ good_row r) ->
+       exists e v, ms_best st = Some e /\ ms_bestv st = Some v /\ first_max_success rows e v /\ acc e = true) /\
+    (no_good_row rows ->
+       ms_bestv st = None /\
+       ms_best st = Some (if r_succ row1 then r_end row1 else p1) /\
+       (r_succ row1 = true -> acc (r_end row1) = true) /\
+       ((forall r, In r rows -> r_succ r = false) -> ms_best st = Some p1)).
+Proof. exact (ms_optimize_best_successful acc run gen nm selected st). Qed.
+Print Assumptions C07_multistart_best_successful.
+
+(* (b) and (c) are exhaustive: either some row counts or none does. *)
+Theorem C07_multistart_cases_exhaustive (rows : list ms_row) : (exists r, In r rows /\ good_row r) \/ no_good_row rows.
+Proof. exact (good_row_dec rows). Qed.
+Print Assumptions C07_multistart_cases_exhaustive.
+
+(* first_max_success is what it says: the value is >= the value of every row that counts. *)
+Theorem C07_multistart_first_max_is_max rows e v :
+  first_max_success rows e v -> forall r' w, In r' rows -> r_succ r' = true -> r_val r' = Some w -> w <= v.
+Proof. exact (first_max_success_all_le rows e v). Qed.
+Print Assumptions C07_multistart_first_max_is_max.
+
+(* The fall-back clause read literally ("no successful in-domain run with a real value => the first start is returned")
+   does not hold: one start [0], whose run reports success with x = [1] (acceptable) and fun = NaN, returns [1].
+   Same on MultistartOptimizer in /repo (best_point [1.], function_values [nan]). *)
+Theorem C07_multistart_first_start_fallback_refuted :
+  exists acc run gen nm selected st p1,
+    ms_optimize acc run gen nm selected = Ok st /\ ms_starts st = [p1] /\
+    no_good_row (ms_rows acc run 0 [p1]) /\ ms_best st <> Some p1.
+Proof. exact ms_first_start_fallback_refuted. Qed.
+Print Assumptions C07_multistart_first_start_fallback_refuted.
+
+(* Corollary kept from before: the result is an acceptable end point or one of the starting points. *)
+Theorem C07_multistart_result_acceptable acc run gen nm selected st :
   ms_optimize acc run gen nm selected = Ok st ->
   exists p, ms_best st = Some p /\
     (acc p = true \/ In p (match selected with Some s => s | None => [] end) \/ exists k, In p (gen k)).
 Proof. exact (ms_optimize_acceptable acc run gen nm selected st). Qed.
-Print Assumptions C07_multistart_result_acceptable_partial.
+Print Assumptions C07_multistart_result_acceptable.
 
 (* The loop returns (no RuntimeError) after exactly len(selected_starts) runs when num_multistarts = 0, resp. num_multistarts
    runs otherwise, whatever the runs' outcomes, as long as that many starts are available.  (Before the repair of the
@@ -123,3 +171,14 @@ Example C07_example :
   | Err _ => False
   end.
 Proof. vm_compute. repeat split. Qed.
+
+(* non-vacuity of the multistart theorem: 5 runs on [0,4] from the starts [0], [1] and three generated [2]; the second run
+   raises (start kept as end point, NaN), the fourth ends outside the domain (NaN, its value 100 is ignored), the third and
+   the fifth tie for the best value 5: the third (first) is kept *)
+Example C07_multistart_example :
+  exists st, ms_optimize ms_example_acc ms_example_run (fun k => repeat [2] k) 5 (Some [[0]; [1]]) = Ok st /\
+    ms_best st = Some [3] /\ ms_bestv st = Some 5 /\
+    ms_starts st = [[0]; [1]; [2]; [2]; [2]] /\ ms_ends st = [[1]; [1]; [3]; [9]; [2]] /\
+    ms_vals st = [Some 3; None; Some 5; None; Some 5] /\ ms_succ st = [true; false; true; false; true] /\
+    first_max_success (ms_rows ms_example_acc ms_example_run 0 (ms_starts st)) [3] 5.
+Proof. exact ms_example_run_result. Qed.
